@@ -63,6 +63,9 @@ LITS = [
     ["l", "cr\rhere", None, None],
     ["l", "a small graph here", None, None],
     ["l", "WHERE { ?s ?p ?o } GRAPH", None, None],
+    ["l", "s", None, None],
+    ["l", "p", None, None],
+    ["l", "o", None, None],
 ]
 SUBS = [u("s1"), u("s2"), u("café"), u("graph/7")]
 PREDS = [u("p"), u("q")]
@@ -138,6 +141,8 @@ def generate(seed, tier):
             continue
         k = g.weighted([("add", 6), ("addN", 2), ("remove", 4), ("remove_graph", 1), ("update", 2), ("commit", 2), ("rollback", 1), ("open", 4), ("len", 2), ("contains", 2), ("contexts", 1), ("query", 2), ("add-bnode", 0.5)])
         op = {"uid": uid, "k": k}
+        if k == "contexts" and g.chance(0.6):
+            op["t"] = tri()
         if k in ("add", "contains"):
             op["t"], op["g"] = tri(), gi()
         elif k == "addN":
@@ -599,6 +604,15 @@ def _execute(trace, ctx):
             if res is not None:
                 ctx.probe("read-answered")
                 ctx.check(res[0] == res[1], "C20.membership", lambda: f"{where}: membership -> {res[0]}, endpoint says {res[1]}", fmt=cfg["format"])
+        elif k == "contexts" and op.get("t") and None not in op["t"]:
+            if not cfg["context_aware"]:
+                continue
+            t = op["t"]
+            tk = tuple(skey(x) for x in t)
+            res, err = do_read(lambda: {key(c.identifier if isinstance(c, Graph) else c) for c in store.contexts((T(t[0]), T(t[1]), T(t[2])))}, lambda: {g for g, ts in model.items() if tk in ts and g != DEFK}, where, op)
+            if res is not None:
+                ctx.probe("read-answered")
+                ctx.check(res[0] == res[1], "C20.contexts-of-triple", lambda: f"{where}: contexts({t}) -> {_srt(res[0])}, the triple is in the named graphs {_srt(res[1])}", falsy=any(not T(x) for x in t))
         elif k == "contexts":
             if not cfg["context_aware"]:
                 continue
